@@ -7,9 +7,11 @@ and compared with a model of the documented behaviour: which invocations are rej
 assembling, and for accepted ones exactly one write (given or derived name) or one print per group,
 whose content equals format_output of that format on the same assembly. The one-group grid over all
 format names and documented parameter values is enumerated completely; the real binary is used for
-exit status, --color, -h and -v.
+exit status, --color, -h and -v, and every fourth accepted invocation is repeated through it in a scratch
+directory whose output names already hold longer stale content (a re-assembly), comparing the files on disk.
 """
 import re
+import zlib
 
 import lib
 import runner
@@ -17,7 +19,7 @@ from gen import cli as C
 
 SPEC = {
     "level": "exploration",
-    "technique": "reference-model monitor of the documented command-line grammar over driver::drive with a write-event log (complete one-group grid + random multi-group), plus real-binary runs for exit status, colour, help and version",
+    "technique": "reference-model monitor of the documented command-line grammar over driver::drive with a write-event log (complete one-group grid + random multi-group), plus real-binary runs for exit status, colour, help, version and on-disk file contents over pre-existing stale outputs",
     "level_text": ("Exhaustive for one output group: every documented format name x every documented parameter value x "
                    "boundary and invalid values x (-o | -p | neither) x input-name shapes; exploration for 2-4 groups with "
                    "global options (quiet, iteration budget, defines, colour, debug switches, help, version) placed in any "
@@ -31,7 +33,7 @@ SPEC = {
     "rule": ("grid cells (format string, output mode, input name) for one group - complete - plus random command lines "
              "with 2-4 groups; non-trivial = invocation with >= 1 format parameter or >= 2 groups or a rejected near-miss, "
              "judged against the model; distinct = distinct argv"),
-    "monitors": ["reject-before-assembly", "write-events", "content-equals-format-output", "printed-output", "process-exit-and-colour"],
+    "monitors": ["reject-before-assembly", "write-events", "content-equals-format-output", "printed-output", "process-exit-and-colour", "real-filesystem"],
     "min_nontrivial": {"quick": 1500, "thorough": 20000},
     "assumptions": ["driver::drive is the same code the binary runs (hook H2 only makes it reachable from the library)"],
 }
@@ -265,6 +267,56 @@ def judge(ctx, worker, argv, model, files):
             ctx.violation("cli-model", {"kind": "progress-report-missing"}, job, "progress lines", stdout[:200])
             return False
     ctx.count("accepted-as-documented")
+    if zlib.crc32(repr(argv).encode()) % REAL_FS_EVERY == 0:
+        return real_fs_case(ctx, job, argv, files, plan, ref)
+    return True
+
+
+STALE = b"STALE-CONTENT-OF-AN-EARLIER-RUN\n" * 512      # longer than any output of PROGRAM
+REAL_FS_EVERY = 4
+
+
+def real_fs_case(ctx, job, argv, files, plan, ref):
+    """The same accepted invocation through the real binary and the real file system: the output names already
+    exist with longer, stale content (a re-assembly), a bystander file sits next to them. Afterwards every planned
+    name holds exactly the bytes of its format (the last group naming it wins), nothing else changed."""
+    ctx.monitor("real-filesystem")
+    want = {}
+    for p in plan:
+        if p[0] == "write":
+            want[p[1]] = as_bytes(ref["formats"].get(p[2]))
+    disk = dict(files)
+    pre = zlib.crc32(repr(argv).encode()) % 3 != 0
+    for name in want:
+        if pre:
+            disk[name] = STALE
+    disk["bystander.keep"] = b"keep me\n"
+    dirs = sorted(set(n.rsplit("/", 1)[0] for n in want if "/" in n))
+    res = runner.run_cli(ctx.cli("rel"), argv[1:], disk, cpu_s=10, extra_dirs=dirs)
+    ctx.evaluated()
+    pjob = {"mode": "process", "argv": argv, "files": lib.files_json(files), "stale_outputs": pre}
+    if res["status"] != 0:
+        ctx.violation("cli-process", {"kind": "real-binary-fails-where-driver-succeeds"}, pjob, {"status": 0},
+                      {"status": res["status"], "signal": res["signal"], "out": (res["stdout"] + res["stderr"])[-300:]})
+        return False
+    changed = {k: v for k, v in res["created"].items()}
+    for name, data in want.items():
+        got = changed.pop(name, None)
+        if got is None and pre:
+            ctx.violation("cli-process", {"kind": "output-file-not-written"}, pjob, {"file": name}, {"changed": sorted(res["created"])})
+            return False
+        if got is None:
+            ctx.violation("cli-process", {"kind": "output-file-not-written"}, pjob, {"file": name}, {"changed": sorted(res["created"])})
+            return False
+        if got != data:
+            ctx.violation("cli-process", {"kind": "file-content-differs-from-format-output", "stale_outputs": pre,
+                                          "longer": len(got) > len(data)}, pjob,
+                          {"file": name, "len": len(data), "head": data[:80].hex()}, {"len": len(got), "head": got[:80].hex(), "tail": got[-40:].hex()})
+            return False
+    if changed:
+        ctx.violation("cli-process", {"kind": "unplanned-file-changed"}, pjob, {"files": sorted(want)}, {"extra": sorted(changed)})
+        return False
+    ctx.count("real-filesystem-ok")
     return True
 
 
